@@ -13,7 +13,15 @@ with `==` against every known instance, and again after the last operation toget
 the full `==` matrices of the namespace instances and of the sets.
 
 stmt / ctor / rend cases: one namespace class statement, one namespace constructor call,
-one render class statement; the outcome as an enum."""
+one render class statement; the outcome as an enum.
+
+nsprog cases (namespace programs over a universe of field VALUES: None, Ellipsis, ints,
+bools, integral floats, strings, (), NaN-like objects): namespace classes associated with a
+chain of render classes, then constructor calls (positional + keyword), ``update(**fields)``,
+``RenderArgs(R_m, ns).update(R_c, **fields)[R_c]`` and attribute reads; after EVERY operation a
+dump of every live namespace instance (``as_dict()`` values, the values read attribute by
+attribute, hash), ``==`` of the result with every instance, ``get_fields()`` of every class.
+Values are reported by exact type (False is not 0) and NaN-like objects by identity."""
 import implenv  # noqa: F401
 
 from term_image.renderable import (
@@ -368,8 +376,191 @@ def run_rend(case):
     return {"accepted": True}
 
 
+# ------------------------------------------------------------ namespace programs over values
+
+STRS = ["", "x", "0", "None", "f0"]
+UNKNOWN_NAMES = ["bogus", None, "F0", "f0_", "fields", "as_dict"]   # None: f"f{nf}"
+NAN_UNKNOWN = 9999
+
+
+class SelfUnequal:
+    """a NaN-like object: unequal to everything, itself included; hashable"""
+
+    __slots__ = ("n",)
+
+    def __init__(self, n):
+        self.n = n
+
+    def __eq__(self, other):
+        return False
+
+    def __hash__(self):
+        return id(self) >> 4
+
+    def __repr__(self):
+        return f"SelfUnequal({self.n})"
+
+
+def field_name(j, nf):
+    if j < nf:
+        return f"f{j}"
+    k = j - nf
+    if k < len(UNKNOWN_NAMES):
+        return UNKNOWN_NAMES[k] or f"f{nf}"
+    return f"x{k}"
+
+
+def run_nsprog(case):
+    nans = {}
+
+    def dec(v):
+        t = v[0]
+        if t == "i":
+            return int(v[1])
+        if t == "b":
+            return bool(v[1])
+        if t == "f":
+            return float(v[1])
+        if t == "n":
+            return None
+        if t == "e":
+            return Ellipsis
+        if t == "s":
+            return STRS[v[1]]
+        if t == "t":
+            return ()
+        if t == "nan":
+            if v[1] not in nans:
+                nans[v[1]] = SelfUnequal(v[1]) if v[1] % 2 else float("nan")
+            return nans[v[1]]
+        raise AssertionError(v)
+
+    def enc(x):
+        for k, o in nans.items():
+            if o is x:
+                return ["nan", k]
+        if x is None:
+            return ["n"]
+        if x is Ellipsis:
+            return ["e"]
+        if type(x) is bool:
+            return ["b", int(x)]
+        if type(x) is int:
+            return ["i", x]
+        if type(x) is float and x == x and x == int(x) and abs(x) < 10**6:
+            return ["f", int(x)]
+        if type(x) is str and x in STRS:
+            return ["s", STRS.index(x)]
+        if type(x) is tuple and not x:
+            return ["t"]
+        return ["nan", NAN_UNKNOWN]
+
+    cl = case["cl"]
+    rcls, ncls_ = [], []
+    base = Renderable
+    for c, dfl in enumerate(cl):
+        R = RMeta(uniq(f"R{c}"), (base,), {})
+        ncls_.append(make_args_cls(R, [dec(v) for v in dfl]))   # associated before subclassing
+        rcls.append(R)
+        base = R
+    nfs = [len(d) for d in cl]
+    # the shared default instances, through the public API
+    objs = [RenderArgs(R)[R] for R in rcls]
+    ok0 = all(type(o) is K for o, K in zip(objs, ncls_))
+    results = list(objs)          # the environment: defaults first, then one entry per operation
+
+    def entry(ns):
+        K = type(ns)
+        c = ncls_.index(K) if K in ncls_ else 99
+        names = list(K.get_fields())
+        d = ns.as_dict()
+        dvals = [enc(x) for x in d.values()] if list(d) == names else [["nan", NAN_UNKNOWN]]
+        return [c, dvals, [enc(getattr(ns, name)) for name in names], hash(ns)]
+
+    def dump():
+        return [entry(o) for o in objs]
+
+    def class_fields():
+        return [[enc(x) for x in K.get_fields().values()] for K in ncls_]
+
+    def var(x):
+        if x >= len(results) or not isinstance(results[x], ArgsNamespace):
+            raise BadOperand
+        return results[x]
+
+    def kwargs(c, kw):
+        return {field_name(j, nfs[c]): dec(v) for j, v in kw}
+
+    def execute(o, flags):
+        kind = o["op"]
+        if kind == "ctor":
+            if o["c"] >= len(ncls_):
+                raise BadOperand
+            return ncls_[o["c"]](*[dec(v) for v in o["pos"]], **kwargs(o["c"], o["kw"]))
+        x = var(o["x"])
+        c = ncls_.index(type(x))
+        if kind == "upd":
+            return x.update(**kwargs(c, o["kw"]))
+        if kind == "raupd":
+            if o["m"] >= len(rcls):
+                raise BadOperand
+            ra = RenderArgs(rcls[o["m"]], x)
+            before = list(ra)
+            try:
+                new = ra.update(rcls[c], **kwargs(c, o["kw"]))
+            finally:
+                flags.append(len(list(ra)) == len(before) and all(a is b for a, b in zip(ra, before))
+                             and ra[rcls[c]] is x and ra.render_cls is rcls[o["m"]])
+            flags.append(isinstance(new, RenderArgs) and new.render_cls is rcls[o["m"]]
+                         and all(new[rcls[k]] is ra[rcls[k]] for k in range(o["m"] + 1) if k != c))
+            return new[rcls[c]]
+        if kind == "get":
+            return ("value", getattr(x, field_name(o["j"], nfs[c])))
+        raise AssertionError(kind)
+
+    init = dump()
+    obs = []
+    for o in case["ops"]:
+        flags = [ok0]
+        val = ["n"]
+        try:
+            res = execute(o, flags)
+            code = None
+        except BadOperand:
+            res, code = None, 6
+        except Exception as e:  # noqa: BLE001
+            res, code = None, err_code(e)
+        if isinstance(res, tuple) and len(res) == 2 and res[0] == "value":
+            val = enc(res[1])
+            results.append(None)
+            obs.append({"res": -100, "val": val, "dump": dump(), "eq": [], "dfl": class_fields(),
+                        "flags": all(flags)})
+            continue
+        if res is not None and not isinstance(res, ArgsNamespace):
+            res, code = None, 91
+        results.append(res)
+        if res is None:
+            obs.append({"res": -1 - code, "val": val, "dump": dump(), "eq": [], "dfl": class_fields(),
+                        "flags": all(flags)})
+            continue
+        j = next((i for i, y in enumerate(objs) if y is res), None)
+        if j is None:
+            objs.append(res)
+            j = len(objs) - 1
+        eq = []
+        for y in objs:
+            e = res == y
+            flags.append((res != y) == (not e) and (y == res) == e)
+            eq.append(bool(e))
+        obs.append({"res": j, "val": val, "dump": dump(), "eq": eq, "dfl": class_fields(),
+                    "flags": all(flags)})
+    fin = [[bool(x == y) for y in objs] for x in objs]
+    return {"init": init, "obs": obs, "fin": fin}
+
+
 def run_case(case):
-    return {"prog": run_prog, "stmt": run_stmt, "ctor": run_ctor, "rend": run_rend}[case["type"]](case)
+    return {"prog": run_prog, "stmt": run_stmt, "ctor": run_ctor, "rend": run_rend,
+            "nsprog": run_nsprog}[case["type"]](case)
 
 
 if __name__ == "__main__":
